@@ -8,10 +8,10 @@ in the QRRHOVib class docstring) -- not from pMuTT's source and without pmutt.co
 All functions return *dimensionless* quantities per mole of formula units:
 Cv/R, Cp/R, U/RT, H/RT, S/R, F/RT, G/RT, q  and the zero-point energy in eV.
 
-Constants: CODATA 2014 SI values (the set pMuTT's documentation tabulates: R = 8.3144598
-J/mol/K, h = 6.626070040e-34 J s).  Derived constants (kB in eV/K, hc/kB, R) are computed
-here from the base values, so they differ from pMuTT's rounded literals by <= 1e-8
-relative; the R7 tolerance is set accordingly.
+Constants: CODATA 2014 recommended values (the set pMuTT's documentation tabulates: R = 8.3144598
+J/mol/K, h = 6.626070040e-34 J s, kB = 8.6173303e-5 eV/K).  Derived constants (hc/kB, kB T/P,
+mass per molecule) are computed here from the base values, so they differ from pMuTT's
+rounded literals by <= 1e-8 relative; the R7 tolerance is set accordingly.
 """
 import math
 
@@ -22,7 +22,7 @@ KB = 1.38064852e-23          # J/K
 NA = 6.022140857e23          # 1/mol
 C_CM = 29979245800.0         # cm/s (exact)
 E_CHARGE = 1.6021766208e-19  # C
-KB_EV = KB / E_CHARGE        # eV/K
+KB_EV = 8.6173303e-5         # eV/K, CODATA 2014 tabulated value (KB / E_CHARGE = 8.61733034e-5)
 R_J = KB * NA                # J/mol/K
 C2 = H * C_CM / KB           # second radiation constant in cm K  (theta = C2 * wavenumber)
 BAR = 1.0e5                  # Pa
